@@ -10,6 +10,7 @@ import Driver.CrdtRich
 import Driver.CrdtPatch
 import Driver.CrdtX
 import Driver.CrdtStore
+import Driver.CrdtDoc
 import Driver.Capi
 import Driver.Anon
 /-
@@ -48,6 +49,7 @@ def step (st : DState) (toks : List String) : DState × List String :=
         else if cmd.startsWith "crdt.patch." then Driver.CrdtPatch.exec st.crdt toks
         else if cmd.startsWith "crdt.x." then Driver.CrdtX.exec st.crdt toks
         else if cmd.startsWith "crdt.st." then Driver.CrdtStore.exec st.crdt toks
+        else if cmd.startsWith "crdt.dc." then Driver.CrdtDoc.exec st.crdt toks
         else Driver.Crdt.exec st.crdt toks
       ({ st with crdt := c }, out)
     | some "anon" =>
